@@ -40,6 +40,10 @@ family, a bare token list.  The harness
        inside a string / one digit (must give different trees), the same tree in two layouts around a rejected text.
        D: every text with a known tree parses to it whatever came before; both routes agree; a repeated text gives
        the same result; near-duplicates give different trees.  K: lexer model / parseText on every text.
+  family `lit` (D and K, same predicates as the other tree families): the CONTENT of string constants and ticked phrases
+       is drawn from everything that means something outside a literal (tab, blank runs, CR, FF, VT, no-break space,
+       comment marks, operators, brackets, keywords, `end if`, the other quote, backslash, non-ASCII; line breaks in
+       phrases) — the parsed node must carry it unchanged, in every layout.
   family `lexedge` (K only, no oracle): hand-written lexical edge cases (identifier `end`, `end  if` with unusual white
        space and glued neighbours, digits followed by letters / dots / signs, `/` next to comments, `%` next to `*` `/`,
        glued operators, keywords glued to names, odd strings, characters outside the alphabet, empty inputs, missing final
@@ -63,7 +67,10 @@ RULE = ('exhaustive expression trees with up to three levels of operators over t
         'random expression trees to depth 8; random statement trees over every statement production with random '
         'layout, comments and optional-word choices; the same with keywords used as names wherever the grammar allows '
         '(variables also at the start of a statement, attributes, operation/function/parameter/event/class/relationship '
-        'names, phrases written as identifiers); operator/parenthesis soups (malformed family, K only); sequences of texts '
+        'names, phrases written as identifiers); trees whose string constants and ticked phrases hold arbitrary literal '
+        'characters - tabs, runs of blanks, CR / form feed / vertical tab, no-break spaces, comment marks, operators, '
+        'keywords, the other quote, non-ASCII letters, line breaks in phrases (family lit: what is layout between tokens '
+        'is content between quotes); operator/parenthesis soups (malformed family, K only); sequences of texts '
         'in one process (same text twice around another, rejected then accepted, near-duplicates); lexical edge-case texts '
         'and all ordered pairs of 47 representative lexemes written tight (K only). Every text of every family is also run '
         'through the composed text-level model (lexer model + parser model) and compared with oal.parse. '
@@ -653,6 +660,96 @@ STRS = ['""', '"hi"', '"a b"', '"/* c */"', '"// d"', '"it\'s"', '"x=1;"', '"C:\
         '"\\n"', '"100%\\"']
 
 
+# --- family `lit`: the CONTENT of a string constant / ticked phrase is part of the tree, whatever characters it is made of.
+# Between tokens a blank, a tab, a CR, a comment, ... are layout; between the quotes they are ordinary characters that
+# the parsed node has to carry unchanged.  Contents are drawn from everything that means something OUTSIDE a literal:
+# layout characters (runs of blanks, tabs at every column, CR, form feed, vertical tab, no-break space), comment
+# openers and closers, operators, brackets, separators, keywords, the other kind of quote, backslashes, non-ASCII letters.
+_LIT_UNITS = [' ', '  ', '   ', '\t', '\t\t', ' \t', '\t ', '\r', '\x0c', '\x0b', '\u00a0', '\u2003', 'a', 'b', 'one', 'two',
+              'x', 'Z', '_', '0', '1', '42', '1.5', '/*', '*/', '/**/', '//', '/', '*', ';', '=', '==', '::', '->', '.',
+              ',', ':', '(', ')', '[', ']', '\\', '%', '+', '-', '<', '>', '!', '|', '&', '^', '?', '@', '#', '$', '{', '}',
+              '`', '~', 'end if', 'end\tfor', 'self', 'not', 'and', 'assign', 'then', '\u00e9', '\u00df', '\u4e2d']
+
+
+def lit_content(r, exclude):
+    """a random literal content: 0..6 units, none of the characters of `exclude` (the closing quote; for a string also
+    the line break, which a string constant cannot contain)"""
+    units = _LIT_UNITS + (['\n', ' \n\t', '\r\n', '"'] if '\n' not in exclude else ["'"])
+    s = ''.join(r.choice(units) for _ in range(r.choice([0, 1, 1, 2, 2, 3, 3, 4, 6])))
+    return ''.join(ch for ch in s if ch not in exclude)
+
+
+def lit_string(r):
+    return '"' + lit_content(r, '"\n') + '"'
+
+
+def lit_phrase(r):
+    return "'" + lit_content(r, "'") + "'"
+
+
+def _is_ticked(x):
+    return isinstance(x, str) and not isinstance(x, Sym) and len(x) >= 2 and x[0] == "'" and x[-1] == "'"
+
+
+def _is_strnode(x):
+    return isinstance(x, list) and len(x) == 2 and isinstance(x[0], Sym) and x[0] == 'str' and isinstance(x[1], str)
+
+
+def respell_literals(x, r, p=1.0):
+    """the same tree with the content of every string constant and every ticked phrase redrawn (each with probability p);
+    names never begin with a tick, so a plain string that does is a ticked phrase"""
+    if _is_strnode(x):
+        return [x[0], lit_string(r)] if r.random() < p else x
+    if _is_ticked(x):
+        return lit_phrase(r) if r.random() < p else x
+    if isinstance(x, list):
+        return [respell_literals(y, r, p) for y in x]
+    return x
+
+
+def lit_expr(r, depth):
+    """an expression whose operands are mostly string constants"""
+    if depth <= 0 or r.random() < 0.3:
+        if r.random() < 0.75:
+            return [S('str'), lit_string(r)]
+        return atom(r.choice([0, 2, 5, 9, 10, 11, 12, 13]), r, 1)
+    if r.random() < 0.15:
+        k, lx = op_un(r.randrange(6), r)
+        return [S('un'), k, lx, lit_expr(r, depth - 1)]
+    k, lx = op_bin(r.randrange(16), r)
+    return [S('bin'), lit_expr(r, depth - 1), k, lx, lit_expr(r, depth - 1)]
+
+
+def lit_params(r):
+    return [[idn(r), lit_expr(r, r.choice([0, 0, 1]))] for _ in range(r.choice([1, 1, 2, 3]))]
+
+
+def lit_stmt(r, j):
+    """one statement of each production that carries a ticked phrase (always written, always ticked) or takes string
+    arguments"""
+    k = j % 8
+    if k == 0:
+        return [S('rel'), flag(r), inst_name(r), inst_name(r), vn(r, RELS), lit_phrase(r), inst_name(r) if r.random() < 0.5 else NONE]
+    if k == 1:
+        hook = [S('self')] if r.random() < 0.3 else chain(r, 1, var_access=True)
+        steps = [[idn(r, KLS), idn(r, RELS), lit_phrase(r) if r.random() < 0.8 else NONE] for _ in range(r.choice([1, 2, 3]))]
+        return [S('selRel'), card(r, True), vn(r), hook, steps, lit_expr(r, 2) if r.random() < 0.5 else NONE]
+    if k in (2, 3):
+        parens = r.random() < 0.7
+        es = [idn(r, ['E1', 'ev_2', 'Done']), flag(r, 0.3), lit_phrase(r), T_ if parens else F_, lit_params(r) if parens else []]
+        return [S('gen'), es, target(r)] if k == 2 else [S('crtEv'), vn(r), es, target(r)]
+    if k == 4:
+        if r.random() < 0.5:
+            return [S('invoke'), [S('icall'), r.choice(NSS), idn(r, FNS), lit_params(r)]]
+        return [S('invoke'), [S('fcall'), idn(r, FNS), lit_params(r)]]
+    if k == 5:
+        return [S('kwCall'), S(r.choice(['bridge', 'cls', 'port'])), chain(r, 0, var_access=True) if r.random() < 0.5 else NONE,
+                r.choice(NSS), idn(r, FNS), lit_params(r)]
+    if k == 6:
+        return [S('sendEvent'), r.choice(NSS), idn(r, FNS), lit_params(r), lit_expr(r, 1)]
+    return [S('selFrom'), card(r, False), vn(r), flag(r), idn(r, KLS), lit_expr(r, 2)]
+
+
 def _kw_spelling(r, w):
     return r.choice([w, w, w.upper(), w.capitalize()])
 
@@ -1054,6 +1151,25 @@ def gen_kwnames(ctx, n):
         yield _case('kwname', blk, i, r.choice([0, 1, 2, 3, 4, 5]))
 
 
+def gen_literals(ctx, n):
+    """family `lit`: trees whose string constants and ticked phrases hold arbitrary literal characters (see _LIT_UNITS):
+    operator trees over string constants, every production that carries a phrase or takes arguments, and ordinary random
+    statement blocks with every literal redrawn; all layouts"""
+    rng = ctx.rng.fork('lit')
+    for i in range(n):
+        r = rng.fork(i)
+        k = i % 4
+        if k == 0:
+            blk = wrap_expr(lit_expr(r, r.choice([1, 2, 2, 3, 4])), i // 4, r)
+        elif k == 1:
+            blk = [lit_stmt(r, i // 4)]
+        elif k == 2:
+            blk = respell_literals([rand_stmt(r, STMT_KINDS[(i // 4) % len(STMT_KINDS)], 2, 3)], r)
+        else:
+            blk = respell_literals(rand_block(r, r.choice([1, 2]), r.choice([2, 3])), r, 0.8)
+        yield _case('lit', blk, i, r.choice([0, 1, 2, 3, 4, 5]))
+
+
 def gen_alt(ctx, n):
     """spellings that give the same tree but are not what the printer writes (parse side only)"""
     rng = ctx.rng.fork('alt')
@@ -1368,6 +1484,8 @@ def generate(ctx):
         yield c
     for c in gen_random_expr(ctx, ctx.pick(2500, 40000)):
         yield c
+    for c in gen_literals(ctx, ctx.pick(1600, 24000)):
+        yield c
     for c in gen_alt(ctx, ctx.pick(300, 3000)):
         yield c
     for c in gen_soup(ctx, ctx.pick(3000, 30000)):
@@ -1389,6 +1507,8 @@ def search(ctx, broken):
     for c in gen_random_stmt(ctx, 20000):
         yield c
     for c in gen_random_expr(ctx, 20000):
+        yield c
+    for c in gen_literals(ctx, 12000):
         yield c
     for c in gen_seq(ctx, 3000):
         yield c
@@ -1576,6 +1696,23 @@ def run_impl(case):
     if case['fam'] in ('rstmt',):
         for s in loads(case['tree']):
             stats['stmt_' + str(s[0])] = stats.get('stmt_' + str(s[0]), 0) + 1
+    if case['fam'] == 'lit':
+        for k, lx in toks:
+            if k in ('STRING', 'TICKED_PHRASE'):
+                kind = 'lit_string' if k == 'STRING' else 'lit_phrase'
+                stats[kind] = stats.get(kind, 0) + 1
+                for tag, chars in (('tab', '\t'), ('blank_run', None), ('cr_ff_vt', '\r\x0c\x0b'), ('line_break', '\n'),
+                                   ('comment_mark', None), ('non_ascii', None), ('other_quote', '"' if k != 'STRING' else "'")):
+                    if tag == 'blank_run':
+                        hit = '  ' in lx
+                    elif tag == 'comment_mark':
+                        hit = '/*' in lx or '//' in lx or '*/' in lx
+                    elif tag == 'non_ascii':
+                        hit = any(ord(ch) > 127 for ch in lx)
+                    else:
+                        hit = any(ch in chars for ch in lx)
+                    if hit:
+                        stats['%s_with_%s' % (kind, tag)] = stats.get('%s_with_%s' % (kind, tag), 0) + 1
     # components 3 and 4: what the TEXT gives (K: the lexer model and `parseText` of the driver on the same text)
     return {'obs': [[_norm_tok(k, l) for k, l in got], obs_tree, [[S(k), l] for k, l in got], obs_tree],
             'd_fail': fails[:2], 'nontrivial': nops >= 2 or compound, 'key': text, 'stats': stats}
@@ -1736,3 +1873,23 @@ def shrink_candidates(case):
         c = dict(case)
         c['tree'] = dumps(put(blk, path, v))
         yield c
+
+    # shorter literal contents: the first / second half, then one character less
+    def lits(x, path):
+        if _is_strnode(x):
+            yield path + [1], x[1]
+        elif _is_ticked(x):
+            yield path, x
+        elif isinstance(x, list):
+            for i, y in enumerate(x):
+                for r in lits(y, path + [i]):
+                    yield r
+    for path, lx in list(lits(blk, [])):
+        q, body = lx[0], lx[1:-1]
+        if len(body) < 2:
+            continue
+        cuts = [body[:len(body) // 2], body[len(body) // 2:]] + [body[:i] + body[i + 1:] for i in range(len(body))][:12]
+        for b in cuts:
+            c = dict(case)
+            c['tree'] = dumps(put(blk, path, q + b + q))
+            yield c
